@@ -105,6 +105,10 @@ type step struct {
 	Exp     []expEntry `json:"exp"`
 	Ts      int        `json:"ts"`
 	St      aState     `json:"st"`
+	// reader matrix
+	Probes []aKey            `json:"probes"`
+	Cases  []json.RawMessage `json:"cases"`
+	Pages  []json.RawMessage `json:"pages"`
 }
 
 func (s *step) ok() bool { return s.Ok == nil || *s.Ok }
@@ -858,6 +862,10 @@ func (r *run) exec(si int) *violation {
 		if st.From != 0 {
 			r.count("reopen:loads-compaction-dump")
 		}
+	case "matrix":
+		if v := r.matrix(si); v != nil {
+			return v
+		}
 	default:
 		vh.Fatalf("unknown op %q", st.Op)
 	}
@@ -888,6 +896,236 @@ func (r *run) afterStep(si int, stateChecked bool) *violation {
 		r.count("snapshot-reread")
 	}
 	return nil
+}
+
+// ---------------------------------------------------------------- reader matrix
+
+type mcase struct {
+	p, s, e           int
+	iseek, iend, desc bool
+	off               int
+	hist              bool
+	out               [][2]int
+}
+
+func parseCase(raw json.RawMessage) mcase {
+	var f []json.RawMessage
+	vh.Must(json.Unmarshal(raw, &f), "matrix case")
+	if len(f) != 9 {
+		vh.Fatalf("matrix case with %d fields", len(f))
+	}
+	var c mcase
+	for i, dst := range []interface{}{&c.p, &c.s, &c.e, &c.iseek, &c.iend, &c.desc, &c.off, &c.hist, &c.out} {
+		vh.Must(json.Unmarshal(f[i], dst), "matrix case field")
+	}
+	return c
+}
+
+func hasPrefix(k, p aKey) bool { return len(p) <= len(k) && eqKey(k[:len(p)], p) }
+
+// every reader specification TLC enumerated, on the snapshot the script took: the reader must return exactly the
+// listed (key, version) sequence and then "no more entries"
+func (r *run) matrix(si int) *violation {
+	st := &r.b.Ops[si]
+	h := r.snaps[st.S]
+	k := r.k
+	stored := map[string]bool{}
+	for i, a := range k.keySeq {
+		if len(h.frozen[i]) > 0 {
+			stored[fmt.Sprint(a)] = true
+		}
+	}
+	is := func(a aKey) bool { return stored[fmt.Sprint(a)] }
+	var first *violation
+	bad := 0
+	for _, raw := range st.Cases {
+		c := parseCase(raw)
+		P, S, E := st.Probes[c.p-1], st.Probes[c.s-1], st.Probes[c.e-1]
+		// classes of boundary combinations (vacuity guard of the check)
+		r.count("matrix:cases")
+		if len(P) > 0 && eqKey(S, P) {
+			r.count("matrix:seek==prefix")
+			if is(P) && !c.iseek {
+				r.count("matrix:seek==prefix==stored-key,exclusive")
+			}
+		}
+		if len(P) > 0 && eqKey(E, P) {
+			r.count("matrix:end==prefix")
+			if is(P) && !c.iend {
+				r.count("matrix:end==prefix==stored-key,exclusive")
+			}
+		}
+		if len(P) > 0 && is(P) {
+			r.count("matrix:stored-key==prefix")
+		}
+		if len(S) < len(P) && len(S) > 0 && hasPrefix(P, S) {
+			r.count("matrix:seek-proper-prefix-of-prefix")
+		}
+		if len(P) < len(S) && len(P) > 0 && hasPrefix(S, P) {
+			r.count("matrix:prefix-proper-prefix-of-seek")
+		}
+		if is(S) && !c.iseek {
+			r.count("matrix:exclusive-seek-on-stored-key")
+		}
+		if is(S) && c.iseek {
+			r.count("matrix:inclusive-seek-on-stored-key")
+		}
+		if is(E) && !c.iend {
+			r.count("matrix:exclusive-end-on-stored-key")
+		}
+		if is(E) && c.iend {
+			r.count("matrix:inclusive-end-on-stored-key")
+		}
+		if len(S) == 0 {
+			r.count("matrix:empty-seek")
+		}
+		if len(P) == 0 {
+			r.count("matrix:empty-prefix")
+		}
+		if c.off > 0 {
+			r.count("matrix:offset")
+		}
+		if c.hist {
+			r.count("matrix:include-history")
+		}
+		if len(c.out) == 0 {
+			r.count("matrix:empty-result")
+		}
+		rd, err := h.s.NewReader(tbtree.ReaderSpec{SeekKey: k.key(S), EndKey: k.key(E), Prefix: k.key(P), InclusiveSeek: c.iseek,
+			InclusiveEnd: c.iend, IncludeHistory: c.hist, DescOrder: c.desc, Offset: uint64(c.off)})
+		if err != nil {
+			return &violation{sig: "Snapshot.NewReader:got-error:expected-ok", text: err.Error(), step: si}
+		}
+		// a plain reader is driven a second time through ReadBetween(0, 0): by the model (BetweenAgrees) the same sequence
+		var rd2 *tbtree.Reader
+		if !c.hist {
+			rd2, err = h.s.NewReader(tbtree.ReaderSpec{SeekKey: k.key(S), EndKey: k.key(E), Prefix: k.key(P), InclusiveSeek: c.iseek,
+				InclusiveEnd: c.iend, DescOrder: c.desc, Offset: uint64(c.off)})
+			if err != nil {
+				return &violation{sig: "Snapshot.NewReader:got-error:expected-ok", text: err.Error(), step: si}
+			}
+		}
+		var got [][2]int
+		d := ""
+		for n := 0; n <= len(c.out) && d == ""; n++ {
+			key, v, ts, hc, err := rd.Read()
+			var exp resRec
+			if n < len(c.out) {
+				ki, x := c.out[n][0]-1, c.out[n][1]
+				exp = resRec{R: "ok", K: k.keySeq[ki], V: h.frozen[ki][x-1][0], T: h.frozen[ki][x-1][1], Hc: x}
+			} else {
+				exp = resRec{R: "nomore"}
+			}
+			g := k.entry(key, v, ts, hc, err)
+			if g.R == "ok" {
+				got = append(got, [2]int{indexOf(k.keySeq, g.K) + 1, g.Hc})
+			}
+			if d = diff(exp, g, true, false); d != "" {
+				d = fmt.Sprintf("%s:expected-%s", d, exp.R)
+			} else if rd2 != nil {
+				key, v, ts, hc, err := rd2.ReadBetween(0, 0)
+				if d = diff(exp, k.entry(key, v, ts, hc, err), true, false); d != "" {
+					d = fmt.Sprintf("ReadBetween-%s:expected-%s", d, exp.R)
+				}
+			}
+		}
+		rd.Close()
+		if rd2 != nil {
+			rd2.Close()
+			r.count("matrix:read-between-cases")
+		}
+		if d != "" {
+			bad++
+			r.count("matrix:mismatch")
+			if first == nil {
+				order, kind := "asc", "plain"
+				if c.desc {
+					order = "desc"
+				}
+				if c.hist {
+					kind = "hist"
+				}
+				rel := "seek-other"
+				switch {
+				case len(S) == 0:
+					rel = "seek-empty"
+				case eqKey(S, P):
+					rel = "seek==prefix"
+				case hasPrefix(P, S):
+					rel = "seek-prefix-of-prefix"
+				case hasPrefix(S, P):
+					rel = "prefix-prefix-of-seek"
+				}
+				first = &violation{sig: fmt.Sprintf("Reader.Read:matrix:%s:%s-%s:%s", d, order, kind, rel), step: si, cont: true,
+					text: fmt.Sprintf("reader {Prefix %v, SeekKey %v (inclusive %v), EndKey %v (inclusive %v), desc %v, offset %d, history %v} on stored keys %v: expected (key index, version) %v then no more entries, got %v",
+						P, S, c.iseek, E, c.iend, c.desc, c.off, c.hist, keysOf(stored), c.out, got)}
+			}
+		}
+	}
+	for _, raw := range st.Pages {
+		var f []json.RawMessage
+		vh.Must(json.Unmarshal(raw, &f), "page case")
+		var ki, off, lim int
+		var desc bool
+		var pages [][]int
+		var end string
+		for i, dst := range []interface{}{&ki, &off, &desc, &lim, &pages, &end} {
+			vh.Must(json.Unmarshal(f[i], dst), "page case field")
+		}
+		key := st.Probes[ki-1]
+		r.count("matrix:history-reader-cases")
+		hr, err := h.s.NewHistoryReader(&tbtree.HistoryReaderSpec{Key: k.key(key), Offset: uint64(off), DescOrder: desc, ReadLimit: lim})
+		if err != nil {
+			return &violation{sig: "Snapshot.NewHistoryReader:got-error:expected-ok", text: err.Error(), step: si}
+		}
+		d := ""
+		fi := indexOf(k.keySeq, key)
+		for n := 0; n <= len(pages) && d == ""; n++ {
+			tvs, err := hr.Read()
+			g := k.tvs(tvs, 0, err)
+			exp := resRec{R: end}
+			if n < len(pages) {
+				exp = resRec{R: "ok", Tvs: []ver{}}
+				for _, x := range pages[n] {
+					exp.Tvs = append(exp.Tvs, ver{h.frozen[fi][x-1][0], h.frozen[fi][x-1][1]})
+				}
+			}
+			if d = diff(exp, g, false, false); d != "" {
+				d = fmt.Sprintf("%s:expected-%s:page-%d", d, exp.R, n+1)
+			}
+		}
+		hr.Close()
+		if d != "" {
+			bad++
+			r.count("matrix:mismatch")
+			if first == nil {
+				first = &violation{sig: "HistoryReader.Read:matrix:" + d, step: si, cont: true,
+					text: fmt.Sprintf("history reader {Key %v, Offset %d, desc %v, ReadLimit %d}: expected pages %v then %s", key, off, desc, lim, pages, end)}
+			}
+		}
+	}
+	if first != nil {
+		first.text = fmt.Sprintf("%d reader specifications of the matrix fail; first: %s", bad, first.text)
+	}
+	return first
+}
+
+func indexOf(seq []aKey, a aKey) int {
+	for i, x := range seq {
+		if eqKey(x, a) {
+			return i
+		}
+	}
+	return -1
+}
+
+func keysOf(m map[string]bool) []string {
+	var out []string
+	for k := range m {
+		out = append(out, k)
+	}
+	sort.Strings(out)
+	return out
 }
 
 func opName(st *step) string {
